@@ -425,6 +425,41 @@ func TestC15Orders(t *testing.T) {
 			st.NonTrivial(H(b))
 		})
 	})
+	// QR boundary pairs (see C13 twin histories): two calls at one level in different modes, both at capacity
+	// boundaries; here judged as histories: [X, Y] in a fresh process against X and Y alone in fresh processes.
+	// A rotating sample (by VERIF_SEED) of the versions below 20; the complete set runs in C13 with the size oracle.
+	pairs, _ := qrBoundaryPairs([]int{0, 1, 2, 3}, false, true)
+	rev, _ := qrBoundaryPairs([]int{0, 1, 2, 3}, true, true)
+	pairs = append(pairs, rev...)
+	want := 40
+	if thorough() {
+		want = 400
+	}
+	var picked []HistoryCase
+	for k, off := 0, envInt("VERIF_SEED", 0); len(picked) < want && k < len(pairs); k++ {
+		h := pairs[(off*7919+k*(len(pairs)/want+1))%len(pairs)]
+		if len(h.Calls[0].Content) > 1300 || len(h.Calls[1].Content) > 1300 {
+			continue
+		}
+		var c HistoryCase
+		for _, q := range h.Calls {
+			c.Calls = append(c.Calls, EncSpec{Fam: "qr", Content: q.Content, A: q.Level, B: q.Mode})
+		}
+		picked = append(picked, c)
+	}
+	parallelFor(len(picked), 8, func(i int) {
+		if ct.Failed() {
+			return
+		}
+		ct.guard(func() {
+			o := checkC15(ct, picked[i])
+			st.Eval()
+			st.ClassN("calls", int64(o.calls))
+			st.Class("QR boundary pair history")
+			b, _ := json.Marshal(picked[i])
+			st.NonTrivial(H(b))
+		})
+	})
 	st.Set("rs_degree_pool", n)
 	st.Sample("order", map[string]any{"order_of_rs_pool_indices": orders[len(orders)-1]})
 	if ct.Failed() {
